@@ -549,4 +549,11 @@ example : resumed (run (init 1 true) [Op.ctorH 0 99, Op.addH 0 1, Op.addH 0 2, O
 example : resumed (run (init 1 false) [Op.ctorH 0 1, Op.addH 0 100, Op.addH 0 2, Op.addH 0 3, Op.await 0 100])
     = [3, 1, 100, 2] := by decide
 
+/-- the value is read four times (twice through the non-const conversion), awaited, moved with the typed move
+constructor and read again: always the producer's 42; the moved-from source reads as moved-from -/
+example : (step (run (init 2 false) [Op.ctorHV 0 1 42, Op.conv 0, Op.conv 0, Op.cconv 0, Op.ares 0, Op.await 0 100])
+      (Op.conv 0)).2 = Res.num 42
+    ∧ (step (run (init 2 false) [Op.ctorHV 0 1 42, Op.conv 0, Op.mov 1 0]) (Op.conv 1)).2 = Res.num 42
+    ∧ (step (run (init 2 false) [Op.ctorHV 0 1 42, Op.conv 0, Op.mov 1 0]) (Op.conv 0)).2 = Res.gone := by decide
+
 end Cocls.SP
